@@ -90,13 +90,54 @@ def aligned(dna, spec, tag):
     db = fresh.to_dict(key_type=kt, value_type=vt, multi_choice_key=mck)
     if {str(k): v for k, v in da.items()} != {str(k): v for k, v in db.items()}:
       return Violation(f'{tag}:views_differ_from_rebuilt', f'{dna!r}: {da!r} vs {db!r}')
+  # lookups by decision point, by id and by name answer like those of the rebuilt DNA
+  def norm(x):
+    if isinstance(x, list):
+      return [norm(e) for e in x]
+    if isinstance(x, pg.DNA):
+      return ('dna', x.value, x.to_numbers())
+    return x
+
+  def look(d, key):
+    try:
+      return ('ok', norm(d[key]))
+    except (KeyError, ValueError, IndexError) as e:
+      return ('raises', type(e).__name__)
+  for dp in spec.decision_points:
+    for key in (dp, dp.id, str(dp.id)):
+      got, want = look(dna, key), look(fresh, key)
+      if got != want:
+        return Violation(f'{tag}:lookup_differs_from_rebuilt', f'{dna!r}: [{dp.id}] gives {got!r}, rebuilt gives {want!r}'[:400])
+  na, nb = dna.named_decisions, fresh.named_decisions
+  if {k: norm(v) for k, v in na.items()} != {k: norm(v) for k, v in nb.items()}:
+    return Violation(f'{tag}:named_decisions_differ_from_rebuilt', f'{dna!r}'[:300])
   return None
 
 
+def _warm(d, spec):
+  """Uses the lookup API of a DNA (fills whatever the DNA memoises)."""
+  for dp in spec.decision_points:
+    try:
+      d[dp]
+      d[dp.id]
+    except (KeyError, ValueError, IndexError):
+      pass
+  d.named_decisions   # pylint: disable=pointless-statement
+  d.to_dict()
+
+
 def h_views(params, n, kt, vt, mck, inactive, flat, compact):
+  """Every selector is a solver decision made concrete by branching; the views and the oracle run natively."""
+  from engine.chx import concretize
   spec, dnas = space(params['spec'])
-  d = _pick(dnas, n)
-  kt, vt, mck = _pick(KEY_TYPES, kt), _pick(VALUE_TYPES, vt), _pick(MCK, mck)
+  n = concretize(n, range(len(dnas)))
+  kt, vt, mck = concretize(kt, range(len(KEY_TYPES))), concretize(vt, range(len(VALUE_TYPES))), concretize(mck, range(len(MCK)))
+  inactive, flat, compact = bool(inactive), bool(flat), bool(compact)
+  with untraced():
+    return _views_body(params, spec, dnas[n], KEY_TYPES[kt], VALUE_TYPES[vt], MCK[mck], inactive, flat, compact)
+
+
+def _views_body(params, spec, d, kt, vt, mck, inactive, flat, compact):
   tag = f'{params["spec"]}'
   # dictionary views
   reach('views.dict')
@@ -152,16 +193,21 @@ def h_views(params, n, kt, vt, mck, inactive, flat, compact):
 CHAIN = ['next', 'random', 'parse', 'clone', 'json', 'uniform', 'swap', 'uniform_swap', 'crossover_uniform', 'crossover_kpoint']
 
 
-def h_chain(params, n, n2, op, rng):
+def h_chain(params, n, n2, op, rng, warm=False):
+  from engine.chx import concretize
   spec, dnas = space(params['spec'])
-  d = _pick(dnas, n)
-  name = _pick(CHAIN, op)
+  ops = params.get('ops') or CHAIN
+  name = ops[concretize(op, range(len(ops)))]
+  d = dnas[concretize(n, range(len(dnas)))]
   before_numbers = d.to_numbers()
-  e = _pick(dnas, n2) if name.startswith('crossover') else None
-  if params.get('ops') and name not in params['ops']:
-    raise Assume()
+  e = dnas[concretize(n2, range(len(dnas)))] if name.startswith('crossover') else None
+  warm = bool(warm)
   try:
    with untraced():       # the operators run natively; every RNG outcome stays a solver decision (SymRandom)
+     # the input is a DNA of its own (nothing memoised by an earlier path), optionally used through its lookup API first
+     d = pg.DNA.from_numbers(before_numbers, spec)
+     if warm:
+       _warm(d, spec)
      if name == 'next':
        r = d.next_dna()
        if r is None:
@@ -220,7 +266,7 @@ def shards(tier, seed):
     for ops in (['next', 'random', 'parse', 'clone', 'json'], ['uniform'], ['swap', 'uniform_swap'],
                 ['crossover_uniform', 'crossover_kpoint']):
       out.append(dict(name=f'chain:{name}:{"+".join(ops)}', fn='h_chain', params=dict(spec=name, ops=ops),
-                      args=[('n', 'int'), ('n2', 'int'), ('op', 'int'), ('rng', 'rng')], budget_s=b, per_path_s=30))
+                      args=[('n', 'int'), ('n2', 'int'), ('op', 'int'), ('rng', 'rng'), ('warm', 'bool')], budget_s=b, per_path_s=30))
   return out
 
 
